@@ -158,6 +158,9 @@ func classify(err error) string {
 
 type c15Case struct {
 	Steps []string `json:"steps"`
+	// TTL > 0: the clients are configured with lock_held_ttl (the lock cache answers without a round
+	// trip for that long)
+	TTL int `json:"lock_held_ttl_s,omitempty"`
 }
 
 var c15Keys = []string{"a", "a/b", "//a//b/", ""}
@@ -189,7 +192,8 @@ func c15Run(r *vt.Run, c c15Case) (canon string) {
 	}
 	vBubble(r.T, func(w *sim.World) {
 		w.ZK.Put("/test", "")
-		cl := map[string]*vClient{"A": vNewClient(r.T, w, "A", "hostA", 0), "B": vNewClient(r.T, w, "B", "hostB", 0)}
+		ttl := time.Duration(c.TTL) * time.Second
+		cl := map[string]*vClient{"A": vNewClient(r.T, w, "A", "hostA", ttl), "B": vNewClient(r.T, w, "B", "hostB", ttl)}
 		ref := &refTree{nodes: map[string]*refNode{"": {val: ""}}, gen: map[string]int{"A": 1, "B": 1}, conn: map[string]bool{"A": true, "B": true}}
 		expired := map[string]bool{}
 		// (also after a reported violation: clients left open would end the bubble with a fatal error)
@@ -443,6 +447,50 @@ func checkC15(r *vt.Run) {
 	r.Bound("depth", depth)
 	alpha := c15Alphabet()
 	r.Bound("alphabet_size", len(alpha))
+	// the lock operations with lock_held_ttl 30 s (the cache may answer): locks, drops, expiries and
+	// reconnects of both clients
+	lockAlpha := []string{"A:acq:L", "A:rel:L", "B:acq:L", "B:rel:L", "A:drop:", "A:reconnect:", "A:expire:", "B:drop:", "B:reconnect:", "B:expire:"}
+	ld := depth + 1
+	lf := [][]string{nil}
+	for d := 1; d <= ld; d++ {
+		var next [][]string
+		for _, hist := range lf {
+			for _, ev := range lockAlpha {
+				nh := append(append([]string(nil), hist...), ev)
+				if d == 2 && r.NShards > 1 {
+					// (as below: every shard runs depth 1, the depth-2 subtrees are dealt out)
+					sum := 0
+					for _, e := range nh {
+						for _, ch := range e {
+							sum = (sum*31 + int(ch)) & 0xfffffff
+						}
+					}
+					if sum%r.NShards != r.Shard {
+						continue
+					}
+				}
+				if r.Expired() {
+					return
+				}
+				c := c15Case{Steps: nh, TTL: 30}
+				r.Crumb(c)
+				canon := "ttl30|" + c15Run(r, c)
+				r.Transition()
+				if d == 1 && r.Shard != 0 {
+					r.R.Transitions--
+					r.R.Validated--
+				}
+				if r.State(canon) {
+					next = append(next, nh)
+				}
+			}
+		}
+		lf = next
+		if len(next) == 0 {
+			break
+		}
+	}
+	r.Bound("lock_search_with_ttl_depth", ld)
 	frontier := [][]string{nil}
 	for d := 1; d <= depth; d++ {
 		var next [][]string
@@ -463,7 +511,7 @@ func checkC15(r *vt.Run) {
 				if ai%32 == 0 && r.Expired() {
 					return
 				}
-				c := c15Case{nh}
+				c := c15Case{Steps: nh}
 				r.Crumb(c)
 				canon := c15Run(r, c)
 				r.Transition()
